@@ -179,31 +179,7 @@ def run(index: RepoIndex, rep) -> None:
               'wrapper space')
 
     # ---------------------------------------------------------------- R3
-    for meth, rattr, sattr, maker, ispace in (
-            ('set_state_representation', 'state_representation', 'state_space',
-             'make_state_representation', 'state_space'),
-            ('set_observation_representation', 'observation_representation',
-             'observation_space', 'make_observation_representation', 'observation_space')):
-        m = ge.methods.get(meth)
-        if m is None:
-            raise AnalysisError(f'anchor vanished: GymEnvironment.{meth}')
-        w = walk_function(m.node)
-        np_ = m.node.args.args[1].arg
-        st = [e for e in w.events if e.kind == 'attrstore']
-        r1 = [e for e in st if src(e.target) == f'self.outer_env.{rattr}']
-        r2 = [e for e in st if src(e.target) == f'self.{sattr}']
-        ok1 = len(r1) == 1 and src(r1[0].value) == \
-            f'{maker}({np_}, self.outer_env.inner_env.{ispace})'
-        rep.check(ok1, 'C20.R3', GYM, f'GymEnvironment.{meth}', m.node.lineno,
-                  '; '.join(src(e.stmt) for e in r1),
-                  f'{meth} does not install {maker}(name, inner_env.{ispace})',
-                  f'{meth} representation')
-        ok2 = len(r2) == 1 and r1 and r2[0].order > r1[0].order and src(r2[0].value) == \
-            f'outer_space_to_gym_space(self.outer_env.{rattr}.space)'
-        rep.check(bool(ok2), 'C20.R3', GYM, f'GymEnvironment.{meth}', m.node.lineno,
-                  '; '.join(src(e.stmt) for e in r2),
-                  f'{meth} does not update the advertised gym space from the new '
-                  f'representation', f'{meth} space')
+    representation_switch(index, rep, 'C20.R3')
 
     # ---------------------------------------------------------------- R4
     m = ge.methods.get('__init__')
@@ -235,6 +211,16 @@ def run(index: RepoIndex, rep) -> None:
 
     # ---------------------------------------------------------------- R5
     check_gym_space(index, rep, 'C20.R5')
+
+    # ---------------------------------------------------------------- R7
+    rep.rule('C20.R7', 'the outer environment converts the current inner state/observation on '
+             'every read and delegates reset/step (C04.R5)', floor=6)
+    outer_env_rules(index, rep, 'C20.R7')
+
+    rep.rule('C20.R8', 'what the adapter returns lies in the advertised spaces: per-object '
+             'bounds of the representations (C15.R1)', floor=20)
+    from .c15 import per_object_bounds
+    per_object_bounds(index, rep, 'C20.R8')
 
     # ---------------------------------------------------------------- R6
     m = ge.methods.get('seed')
@@ -283,3 +269,72 @@ def check_gym_space(index: RepoIndex, rep, rule: str) -> None:
     rep.check(ok, rule, GYM, 'outer_space_to_gym_space', f.node.lineno,
               src(rets[0].value)[:200] if rets else '', f'outer_space_to_gym_space {why}',
               'gym space conversion')
+
+
+def representation_switch(index: RepoIndex, rep, rule: str) -> None:
+    ge = index.cls(GYM, 'GymEnvironment')
+    for meth, rattr, sattr, maker, ispace in (
+            ('set_state_representation', 'state_representation', 'state_space',
+             'make_state_representation', 'state_space'),
+            ('set_observation_representation', 'observation_representation',
+             'observation_space', 'make_observation_representation', 'observation_space')):
+        m = ge.methods.get(meth)
+        if m is None:
+            raise AnalysisError(f'anchor vanished: GymEnvironment.{meth}')
+        w = walk_function(m.node)
+        np_ = m.node.args.args[1].arg
+        st = [e for e in w.events if e.kind == 'attrstore']
+        r1 = [e for e in st if src(e.target) == f'self.outer_env.{rattr}']
+        r2 = [e for e in st if src(e.target) == f'self.{sattr}']
+        ok1 = len(r1) == 1 and src(w.expand(r1[0].value)) == \
+            f'{maker}({np_}, self.outer_env.inner_env.{ispace})'
+        rep.check(ok1, rule, GYM, f'GymEnvironment.{meth}', m.node.lineno,
+                  '; '.join(src(e.stmt) for e in r1),
+                  f'{meth} does not install {maker}(name, inner_env.{ispace})',
+                  f'{meth} representation')
+        new_repr = src(w.expand(r1[0].value)) if r1 else ''
+        v2 = r2[0].value if len(r2) == 1 else None
+        ok2 = v2 is not None and bool(r1) and (
+            (r2[0].order > r1[0].order and
+             src(v2) == f'outer_space_to_gym_space(self.outer_env.{rattr}.space)')
+            or src(w.expand(v2)) == f'outer_space_to_gym_space({new_repr}.space)')
+        rep.check(bool(ok2), rule, GYM, f'GymEnvironment.{meth}', m.node.lineno,
+                  '; '.join(src(e.stmt) for e in r2),
+                  f'{meth} does not update the advertised gym space from the new '
+                  f'representation', f'{meth} space')
+
+
+def outer_env_rules(index: RepoIndex, rep, rule: str) -> None:
+    OUTER = 'gym_gridverse/outer_env.py'
+    oc = index.cls(OUTER, 'OuterEnv')
+    for prop, rep_attr, inner in (('state', 'state_representation', 'state'),
+                                  ('observation', 'observation_representation', 'observation')):
+        m = oc.methods.get(prop)
+        if m is None:
+            raise AnalysisError(f'anchor vanished: OuterEnv.{prop}')
+        w = walk_function(m.node)
+        rets = [e for e in w.events if e.kind == 'return' and e.value is not None]
+        want = f'self.{rep_attr}.convert(self.inner_env.{inner})'
+        rep.check(len(rets) >= 1 and all(src(w.expand(r.value)) == want for r in rets),
+                  rule, OUTER, f'OuterEnv.{prop}', m.node.lineno,
+                  '; '.join(src(r.stmt) for r in rets),
+                  f'OuterEnv.{prop} does not return {want} computed at the time of the read (a '
+                  f'cached conversion ignores a representation switch or a new state)',
+                  f'convert {prop}')
+        st = [e for e in w.events if e.kind in ('attrstore', 'store', 'augstore')]
+        rep.check(not st, rule, OUTER, f'OuterEnv.{prop}', m.node.lineno,
+                  '; '.join(src(e.stmt) for e in st) or prop,
+                  f'reading OuterEnv.{prop} stores into the environment (a cache)',
+                  f'{prop} read is side-effect free')
+    for meth, want in (('reset', 'self.inner_env.reset()'), ('step', None)):
+        m = oc.methods.get(meth)
+        if m is None:
+            raise AnalysisError(f'anchor vanished: OuterEnv.{meth}')
+        w = walk_function(m.node)
+        calls = [src(e.node) for e in w.events if e.kind == 'call']
+        if want is None:
+            p = [a.arg for a in m.node.args.args[1:]]
+            want = f'self.inner_env.step({p[0]})' if p else ''
+        rep.check(calls == [want], rule, OUTER, f'OuterEnv.{meth}', m.node.lineno,
+                  '; '.join(calls), f'OuterEnv.{meth} does not delegate with exactly one call '
+                  f'{want}', f'delegate {meth}')
